@@ -99,12 +99,51 @@ def stores_of(fnode, name):
     return out
 
 
-def alternatives(fnode, name):
+def _exclusive(a, b):
+    """Statements a and b lie in different branches of one if statement
+    (neither can run when the other does, within one pass)."""
+    chain_a = [a] + list(_ancestors(a))
+    chain_b = set(map(id, [b] + list(_ancestors(b))))
+    for i, x in enumerate(chain_a):
+        if id(x) in chain_b and isinstance(x, ast.If):
+            # x is the lowest common ancestor if the child of x on a's side
+            # is not an ancestor of b
+            child_a = chain_a[i - 1] if i else None
+            if child_a is None:
+                return False
+            in_body = any(child_a is s for s in x.body)
+            in_else = any(child_a is s for s in x.orelse)
+            chain_b_nodes = [b] + list(_ancestors(b))
+            child_b = None
+            for j, y in enumerate(chain_b_nodes):
+                if y is x:
+                    child_b = chain_b_nodes[j - 1] if j else None
+            if child_b is None:
+                return False
+            b_body = any(child_b is s for s in x.body)
+            b_else = any(child_b is s for s in x.orelse)
+            return (in_body and b_else) or (in_else and b_body)
+        if id(x) in chain_b:
+            return False
+    return False
+
+
+def _ancestors(n):
+    p = parent(n)
+    while p is not None:
+        yield p
+        p = parent(p)
+
+
+def alternatives(fnode, name, at=None):
     """If `name` takes its values only from plain assignments
     (possibly `a if c else b`), -> [(value expr, [(test, polarity)...])];
-    None when it is bound in another way."""
+    None when it is bound in another way.  With `at` (a node using the
+    name) bindings in a branch that excludes the use are left out."""
     out = []
     for st in stores_of(fnode, name):
+        if at is not None and _exclusive(st, at):
+            continue
         if not (isinstance(st, ast.Assign) and all(
                 isinstance(t, ast.Name) for t in st.targets)):
             return None
@@ -381,7 +420,8 @@ def expand_values(fnode, e, params=(), depth=0):
             before = before + [(v, False)]
         return out
     if isinstance(e, ast.Name) and e.id not in params:
-        alts = alternatives(fnode, e.id)
+        alts = alternatives(fnode, e.id, at=e if parent(e) is not None
+                            else None)
         if alts:
             out = []
             own = {a.arg for a in getattr(fnode, "args", None).args +
